@@ -78,6 +78,7 @@ def colorAfter : List Nat → Bool → Bool
   | [], c => c
   | _ :: ws, c => colorAfter ws (!c)
 
+when_kernel Gzx.Gen.K03w.appendPattern in
 /-- one iteration of the outer loop of `onedWriter_appendPattern`, as a function of the run length read -/
 def apStep (len : Int) (st : List Int × Int × Bool × Int) : Ctl (List Int × Int × Bool × Int) (Int × List Int) :=
   (loop (Gen.K03w.appendPattern_body2 st.2.2.1) 1 (tripUp 0 len 1) 0 (st.1, st.2.1)).thenC fun s =>
@@ -313,6 +314,7 @@ theorem draw_loop (body : Int → (List Int × Int) → Ctl (List Int × Int) ρ
     · have h3 : ¬ segW pats a (k + 1) ≤ rest.length := by omega
       simp only [h1, h3, if_false]
 
+when_kernel Gzx.Gen.K03w.appendPattern in
 /-- `onedWriter_appendPattern` in the position it has inside an encoder: behind `done`, any position expression -/
 theorem ap_at (done rest : List Int) (p : Int) (pat : List Nat) (c : Bool) (hp : p = (done.length : Int)) :
     Gen.K03w.appendPattern (done ++ rest) p (pat.map Int.ofNat) c =
@@ -361,6 +363,7 @@ def IsLStep (body : Int → (List Int × Int) → Ctl (List Int × Int) ρ) (ful
   ∀ i, i < full.length → ∀ done rest, body (i : Int) (done ++ rest, (done.length : Int)) =
     drawn done rest (OneD.sumL (lPat full i)) (b01 (OneD.appendPattern (lPat full i) c))
 
+when_kernel Gzx.Gen.K03w.appendPattern in
 /-- the shape-independent part of an L-pattern iteration -/
 theorem lstep_core (full : List Nat) (h : allDigits full = true) (i : Nat) (hi : i < full.length) (c : Bool)
     (done rest : List Int) (k : Int × List Int → Ctl (List Int × Int) ρ)
